@@ -1,5 +1,10 @@
 import Abyss.Props.C18
 import Abyss.Props.GenCorollaries2
+import Abyss.Props.GenBudget
+#print axioms Abyss.C18_generated_same_updates_same_files_budget
+#print axioms Abyss.C18_generated_readonly_erasure_budget
+#print axioms Abyss.budgetK_filter_isUpdate
+#print axioms Abyss.budgetV_filter_isUpdate
 #print axioms Abyss.C18_generated_same_updates_same_files
 #print axioms Abyss.C18_generated_readonly_erasure
 #print axioms Abyss.C18_readonly_erasure
